@@ -218,7 +218,8 @@ def run_impl(sk, ops, tmp, keypath, environ=None, tape=None):
             cfg = schema()
         except Exception as e:  # noqa
             return {"build": exc_out(e), "steps": []}, None
-        cfg._key_filename = keypath
+        if keypath:
+            cfg._key_filename = keypath
         res = {"build": {"state": C.dump_cfg(cfg, ids)}, "steps": []}
         for op in ops:
             out = "ok"
@@ -257,6 +258,15 @@ def run_impl(sk, ops, tmp, keypath, environ=None, tape=None):
                     cc.reset_value(cfg, op["key"])
                 elif k == "defined":
                     out = {"defined": cc.is_value_defined(cfg, op["key"])}
+                elif k == "setkey":
+                    tgt = cfg
+                    for part in op["path"]:
+                        tgt = tgt._data.get(part)
+                        if not isinstance(tgt, Config):
+                            raise AttributeError(part)
+                    tgt._key_filename = op["file"]
+                elif k == "to_tree_keyed":
+                    out = keyed_tree(cfg, sk, op)
                 elif k == "to_tree":
                     out = {"tree": F.enc_val(cfg.to_tree(virtual=op.get("virtual", False), sensitive_mask=op.get("mask")))}
             except Exception as e:  # noqa
@@ -267,6 +277,75 @@ def run_impl(sk, ops, tmp, keypath, environ=None, tape=None):
         os.urandom = real_urandom
         os.environ.clear()
         os.environ.update(saved_env)
+
+
+def keyed_tree(cfg, sk, op):
+    """to_tree() with every written secret replaced by 'ENC|<key file that decrypts it to the held value>|<value>', plus the
+    key files opened meanwhile.  Trial decryption uses the cipher providers on the raw bytes of each candidate file (no KeyFile)."""
+    import base64
+    import builtins
+    from cincoconfig.core import Config
+    from cincoconfig.encryption import AesProvider, XorProvider
+    cands = op["candidates"]
+    opened = []
+    real_open = builtins.open
+
+    def spy(file, *a, **k):
+        try:
+            fp = os.path.abspath(os.fspath(file))
+        except TypeError:
+            fp = None
+        if fp in cands and fp not in opened:
+            opened.append(fp)
+        return real_open(file, *a, **k)
+    builtins.open = spy
+    try:
+        tree = cfg.to_tree()
+    finally:
+        builtins.open = real_open
+    keys = {}
+    for c in cands:
+        try:
+            with real_open(c, "rb") as fh:
+                keys[c] = fh.read()
+        except OSError:
+            pass
+
+    def which(stored, held):
+        if not (isinstance(stored, dict) and set(stored) == {"method", "ciphertext"}):
+            return stored
+        try:
+            ct = base64.b64decode(stored["ciphertext"])
+        except Exception:  # noqa
+            return "ENC|?|"
+        for c, kb in keys.items():
+            try:
+                prov = AesProvider(kb) if stored["method"] == "aes" else XorProvider(kb)
+                if prov.decrypt(ct).decode("utf-8") == held:
+                    return "ENC|%s|%s" % (c, held)
+            except Exception:  # noqa
+                continue
+        return "ENC|?|%s" % (held if isinstance(held, str) else "")
+
+    def walk(s, c, t):
+        for k, sf in s["fields"]:
+            if k not in t:
+                continue
+            if sf["s"] == "leaf":
+                f = sf["field"]
+                held = c._data.get(k)
+                if f["k"] == "secure":
+                    t[k] = which(t[k], held)
+                elif f["k"] == "list" and isinstance(f.get("item"), dict) and f["item"]["k"] == "secure" and isinstance(t[k], list):
+                    t[k] = [which(x, h) for x, h in zip(t[k], list(held))]
+            elif sf["s"] in ("sub", "ctype") and isinstance(t[k], dict) and isinstance(c._data.get(k), Config):
+                walk(sf["schema"], c._data[k], t[k])
+            elif sf["s"] == "cfglist" and isinstance(t[k], list):
+                for it, ic in zip(t[k], c._data.get(k) or []):
+                    if isinstance(it, dict) and isinstance(ic, Config):
+                        walk(sf["schema"], ic, it)
+    walk(sk, cfg, tree)
+    return {"tree": F.enc_val(tree), "raw": tree, "opened": opened}
 
 
 def canon_out(o):
